@@ -580,13 +580,18 @@ def ensure_aux(w):
 
 
 def separating_values(c1, c2, cop=None):
-    """fluent values that tell a comparison with c1 from the same comparison with c2 (first: the most telling one).
+    """fluent values that tell a comparison with c1 from the same comparison with c2; the first two are the telling ones.
     '<=' holds up to c + EPS, '>=' from c - EPS, '=' within EPS of c, '<' and '>' are strict."""
     lo, hi = sorted([float(c1), float(c2)])
     d = max(hi - lo, 2 * EPS, 0.002)
     mid = (lo + hi) / 2 if hi > lo else lo
-    shift = {"<=": EPS, "=": EPS, ">=": -EPS}.get(cop, 0.0)
-    return [mid + shift, mid - shift, lo - d, hi + d, float(c1), float(c2)]
+    if cop == "=":
+        if hi - lo > 2 * EPS:
+            return [float(c1), float(c2), mid, lo - d, hi + d]          # exactly one of the two equalities holds
+        return [mid + EPS, mid - EPS, lo - d, hi + d]                   # within EPS of the larger / the smaller one only
+    shift = {"<=": EPS, ">=": -EPS}.get(cop, 0.0)
+    both = hi + d if cop in (">=", ">") else lo - d                       # both comparisons hold there
+    return [mid + shift, both, lo - d, hi + d, float(c1), float(c2), mid - shift]
 
 
 def _terms(w, scope):
@@ -627,8 +632,10 @@ def _sibling(rng, w, scope, sop, const, min_lits=0, plain=None):
         vs = [v for v, _ in scope]
         x, y = rng.sample(vs, 2)
         items.append(["=", x, y])
+    negate = rng.random() < 0.4          # one polarity per sibling, so that one fact regime makes its literals neutral
     for _ in range(max(min_lits, rng.choice([0, 1, 1, 1, 1, 2]))):
-        lit = _zlit(rng, w, outer if plain == "vacuous" else scope, None if plain == "vacuous" else must)
+        lit = _zlit(rng, w, outer if plain == "vacuous" else scope, None if plain == "vacuous" else must,
+                    negate=1.0 if negate else 0.0)
         if lit not in items:
             items.append(lit)
     rng.shuffle(items)
@@ -678,6 +685,33 @@ def _twin_of(rng, w, node, mode, c1, c2):
             return None
         t = [t[0], [t[1][0], "-", rng.choice(others)], t[2]]
     return t
+
+
+# text order of a planted pair: None = at random, 0 = as built, 1 = reversed (the driver plants the 'far' shapes both ways:
+# a library that keeps the first of two look-alikes and one that keeps the last are then both visible)
+ORDER = None
+
+
+def _swap(rng, cop=None, c1=None, c2=None):
+    """whether the pair (condition with c1, condition with c2) is written in the opposite order.  With ORDER set the order
+    is semantic: 0 = the stricter comparison first, 1 = the weaker first ('=' has neither: as built / reversed)"""
+    if ORDER is None:
+        return rng.random() < 0.3
+    if cop in ("<=", "<", ">=", ">") and c1 is not None and float(c1) != float(c2):
+        first_stricter = (float(c1) < float(c2)) == (cop in ("<=", "<"))
+        return first_stricter != (ORDER == 0)
+    return bool(ORDER)
+
+
+def _neutral_regime(node):
+    """the fact regime ('none' / 'all' of the hinted predicates) under which the literals of the sibling do not decide it"""
+    body = node[2] if node[0] == "forall" else node
+    lits = [x for x in body[1:] if x[0] in ("pu", "pz") or (x[0] == "not" and x[1][0] in ("pu", "pz"))]
+    if not lits:
+        return None
+    negative = lits[0][0] == "not"
+    want_true = body[0] == "and"             # literals of a conjunction must hold, of a disjunction must fail
+    return "all" if want_true != negative else "none"
 
 
 TWIN_SIBLINGS = ["or", "and", "forall"]
@@ -739,7 +773,9 @@ def s_twins(rng, w, a, variant):
         if not cand:
             return None
         empty = [rng.choice(cand)]
-    if rng.random() < 0.3:
+    regime = _neutral_regime(s1) if mode not in ("flip",) else None
+    cmp_cop = _cop_of(s1)
+    if _swap(rng, cmp_cop, c1, c2 if "far" in mode or mode == "near" else c1):
         s1, s2 = s2, s1
     base = _and_body(a["pre"]) if rng.random() < 0.3 else ["and"]
     if ctx == "pre-root":
@@ -759,6 +795,7 @@ def s_twins(rng, w, a, variant):
         a["eff"] = a["eff"] + [["forall", [qv, "-", qty], ["when", [rng.choice(["and", "and", "or"]), s1, s2], res]]]
     h = _hints(a, c1, c2, "twins:%s:%s:%s" % variant, s1, [qty] + [x[1][2] for x in (s1, s2) if x[0] == "forall" and x[1][2] not in empty])
     h["empty_types"] = empty
+    h["regime"] = regime
     return h
 
 
@@ -797,7 +834,7 @@ def s_leaf_twins(rng, w, a, variant):
     else:
         pair = [rng.choice([lit, [cop, fl, c1]]), [rng.choice(["or", "and"]), lit, [cop, fl, c1]]]
     s1, s2 = pair
-    if rng.random() < 0.3:
+    if _swap(rng, cop, c1, c2 if kind in ("num-far", "num-far4", "num-near") else c1):
         s1, s2 = s2, s1
     base = _and_body(a["pre"]) if rng.random() < 0.3 else ["and"]
     if ctx == "pre-root":
@@ -849,8 +886,13 @@ def s_when_twins(rng, w, a, variant):
         e1, e2 = ["when", ante1, res], ["when", ante2, rng.choice([res, ["and", res]])]
     if kind == "forall-when":
         e1, e2 = ["forall", [must, "-", qty], e1], ["forall", [must, "-", qty], e2]
+    if _swap(rng, cop, c1, c2 if mode in ("far", "far4", "near") else c1):
+        e1, e2 = e2, e1
     a["eff"] = ["and"] + _insert_two(rng, a["eff"][1:], e1, e2)
-    return _hints(a, c1, c2, "when-twins:%s:%s" % variant, [cop, fl, c1], [qty if must else None])
+    h = _hints(a, c1, c2, "when-twins:%s:%s" % variant, [cop, fl, c1], [qty if must else None])
+    if not mode.startswith("result-far"):
+        h["regime"] = "none" if lit[0] == "not" else "all"
+    return h
 
 
 def _deep(rng, w, scope, depth, used):
@@ -1173,11 +1215,16 @@ for _k in ("shadow-pre", "shadow-forall-when", "empty-and", "empty-or", "empty-f
     SHAPES["scoping:%s" % _k] = (s_shadow, (_k,))
 
 
-def shape(rng, w, key):
+def shape(rng, w, key, order=None):
     """applies the shape `key` to one action of w; returns the probe hints, or None when it does not fit this world"""
+    global ORDER
     fn, variant = SHAPES[key]
     a = rng.choice(w.actions)
-    h = fn(rng, w, a, variant)
+    ORDER = order
+    try:
+        h = fn(rng, w, a, variant)
+    finally:
+        ORDER = None
     if h is not None:
         w.features.add("shape:" + key.split(":")[0])
     return h
@@ -1196,16 +1243,20 @@ def hinted_state(rng, w, objs, hints, k):
                 st["fluents"][i] = (f, args, rng.choice(hints["fluents"][f]))
         return st
     named = set(hints["facts"])
-    if k == 0:
+    # states 0 and 1: no / every fact of the hinted predicates and the first telling fluent value - or, when the shape knows
+    # under which regime its literals are neutral, that regime with the first and the second telling value
+    regime = hints.get("regime")
+    none_all = [regime, regime] if regime else ["none", "all"]
+    if k < 2 and none_all[k] == "none":
         st["facts"] = [x for x in st["facts"] if x[0] not in named]
-    elif k == 1:
+    elif k < 2:
         keep = [x for x in st["facts"] if x[0] not in named]
         st["facts"] = keep + [x for x in G.ground_atoms(w, objs, [p for p in w.preds if p[0] in named])]
     fl = []
     for f, args, v in st["fluents"]:
         vals = hints["fluents"].get(f)
         if vals:
-            v = vals[0] if k < 2 else rng.choice(vals)
+            v = (vals[k] if regime and len(vals) > 1 else vals[0]) if k < 2 else rng.choice(vals)
         fl.append((f, args, v))
     st["fluents"] = fl
     cf = hints.get("const_facts")
